@@ -223,6 +223,10 @@ fn run_script(script: &Value, out: &mut Vec<Value>) {
                 let next = if router.verif_pending_events() > 0 { "event" } else { "consume" };
                 queue.push_front(json!({"op": "idle", "max": budget - 1}));
                 queue.push_front(json!({"op": next}));
+            } else if budget > 0 {
+                // the real router says it has nothing to do (no event queued, ready queue empty): recorded, so that the model
+                // has to agree that nothing can happen without a new stimulus
+                queue.push_front(json!({"op": "quiet"}));
             }
             continue;
         }
@@ -310,6 +314,7 @@ fn run_script(script: &Value, out: &mut Vec<Value>) {
                         _ => verif::Event::Shadow(verif::ShadowRequest { filter: "a/b".into() }) };
                     json!({"r": if verif::send_event(&tx, id, e) { "ok" } else { "full" }})
                 }
+                "quiet" => json!({"r": "ok", "pending": router.verif_pending_events(), "ready": router.verif_ready_len()}),
                 "event" => json!({"r": "ok", "some": router.verif_step_event()}),
                 "consume" => json!({"r": "ok", "some": router.verif_consume()}),
                 other => panic!("harness: op {other}"),
